@@ -152,7 +152,29 @@ def classes():
                 else:
                     getattr(py4hw, cls)(self, 'x%d' % i, ws[i], ws[i + 1])
 
-    _K.update(HLeaf=HLeaf, HReg=HReg, HNet=HNet, HChild=HChild, HChain=HChain)
+    class HGate(py4hw.Logic):
+        """fan-in class: one n-input library block (its inputs are the n input ports of the harness) followed by a reader"""
+        def __init__(self, parent, name, cls, n, w):
+            super().__init__(parent, name)
+            if cls.startswith('Concatenate'):
+                w = 1
+            ins = [self.addIn('a_%d' % i, parent.wire('a_%d' % i, w)) for i in range(n)]
+            if cls in ('Scope', 'Waveform'):
+                r = self.addOut('r', parent.wire('r', w))
+                getattr(py4hw, cls)(self, 'g', ins)
+                py4hw.Buf(self, 'b', ins[n // 2], r)
+                return
+            rw = n * w if cls.startswith('Concatenate') else w
+            r = self.addOut('r', parent.wire('r', rw))
+            t = self.wire('t', rw)
+            if cls == 'Mux':
+                sel = self.addIn('sel', parent.wire('sel', max(1, (n - 1).bit_length())))
+                py4hw.Mux(self, 'g', sel, ins, t)
+            else:
+                getattr(py4hw, cls)(self, 'g', ins, t)
+            py4hw.Buf(self, 'b', t, r)
+
+    _K.update(HLeaf=HLeaf, HReg=HReg, HNet=HNet, HChild=HChild, HChain=HChain, HGate=HGate)
     return _K
 
 
@@ -375,6 +397,8 @@ def build(case):
         return hw.children['d']
     if case['type'] == 'child':
         return classes()['HChild'](hw, 'wrap', recipe(case['src'], case['block']), tup(case['cfg']))
+    if case['type'] == 'gate':
+        return classes()['HGate'](hw, 'wide', case['cls'], case['n'], case['w'])
     if case['type'] == 'chain':
         n = case['n']
         if case['order'] == 'output_first':
